@@ -50,6 +50,7 @@ static int snap_on = 0;
 static long snap_budget = 60000000L;
 static int param_matrix = 0;
 static int order_on = 0;
+static int trace_on = 0;
 
 static uint64_t event_counter = 0;
 
@@ -87,6 +88,8 @@ static void init_once(void)
         if (p) param_matrix = atoi(p);
         p = getenv("KV_ORDER");
         if (p) order_on = atoi(p);
+        p = getenv("KV_TRACE");
+        if (p) trace_on = atoi(p);
 }
 
 static inline void ensure_thread(void)
@@ -134,6 +137,7 @@ static void push_ev(int kind, long a, long b)
         e->b = b;
         e->tid = my_tid;
         ring_n++;
+        if (trace_on && logf) fprintf(logf, "{\"rec\":\"ev\",\"n\":%llu,\"kind\":%d,\"a\":%ld,\"b\":%ld,\"tid\":%u}\n", (unsigned long long)e->n, kind, a, b, my_tid);
 }
 
 static void out(const char *s)
